@@ -1063,12 +1063,13 @@ pub fn build_model(log: &[Ev], node: u8, link: u8) -> ServerModel {
             // was still parked on a full response buffer when the Cancel was read is aborted
             // there and leaves nothing behind. Removal by expiry is not observable, so a
             // finished handler whose request was not cancelled counts as possibly buffered.
-            let buffered = p.finish.is_some()
-                && match (p.exec_done, p.cancel_read) {
-                    (Some(d), Some(c)) => d < c,
-                    (None, Some(_)) => false,
-                    _ => true,
-                };
+            // (A handler that finishes in a poll overlapping the Cancel — possible on a parallel
+            // runtime, generated here by in-poll preemption — also gets its response buffered.)
+            let buffered = match (p.finish, p.cancel_read) {
+                (None, _) => false,
+                (Some(_), None) => true,
+                (Some(f), Some(c)) => f > c || p.exec_done.map(|d| d < c).unwrap_or(false),
+            };
             if p.resp.is_empty() && (buffered || p.unrun.is_some()) {
                 m.unclean.insert(id);
             }
